@@ -80,6 +80,14 @@ CHECKS = {
   "held on the generated path trees: pathVariables of every HTTP interaction equal the reference (declared per prefix, in path order, with the declared schema) and every faulty variant of each document is rejected",
   "trusts the model projector's prefix rule (15 lines from the statement)",
   "runtime monitoring: execution vs executable reference model, fault injection for the rejected variants"),
+ "C18": ("fault_enumeration",
+  "held on the observed (ban set, document) pairs: all 30 single bans and random larger sets against generated accepted documents written directly, through macros and through included files; a hit is rejected with 'directive not allowed' naming a banned kind and (directly) located in such a directive, a banned INCLUDE is refused before its file matters, and a ban that hits nothing changes neither verdict nor catalog bytes",
+  "trusts the renderer's span map and a keyword scan of the rendered text for 'which kinds occur'",
+  "runtime monitoring over configurations: oracle on each execution under an option set, plus metamorphic equality with the option-free execution"),
+ "C20": ("exploration",
+  "held on the observed additions and deletions: each of eight kinds of fresh independent declaration at every insertion point of generated accepted documents yields the old catalog plus exactly the new entries; deleting an unreferenced declaration removes exactly its entry",
+  "trusts the order-preserving JSON decoder; 'unreferenced' is decided on the rendered text",
+  "runtime monitoring: metamorphic relation between two executions (entry-wise catalog comparison)"),
 }
 
 def main():
